@@ -201,7 +201,11 @@ def to_shape(gtype, c):
     if gtype == "Polygon":
         return shapely.Polygon(c[0], c[1:])
     if gtype == "MultiPolygon":
-        return shapely.MultiPolygon([shapely.Polygon(p[0], p[1:]) for p in c])
+        polys = [shapely.Polygon(p[0], p[1:]) for p in c]
+        mp = shapely.MultiPolygon(polys)
+        # members may overlap: the point set of the geometry is the union of its members (an overlapping collection is not a valid
+        # GEOS geometry and could not be compared)
+        return mp if mp.is_valid else shapely.union_all(polys)
     if gtype == "BoundingBox":
         return shapely.box(c[0], c[1], c[2], c[3])
     raise ValueError(gtype)
@@ -632,11 +636,23 @@ def _flat(c):
     return [c]
 
 
+def constructible(gtype, coords):
+    try:
+        mkgeom(gtype, coords)
+        return True
+    except Exception:  # noqa
+        return False
+
+
 def run_repr(case):
     """buffer_geometry with the two buffers handed over as int / numpy scalars gives what it gives for Python floats."""
     out = Out(case)
     gtype, coords = POOL_BY_ID[case["geom"]]
     tb, fb = case["buffer"]
+    if not constructible(gtype, coords):
+        out.vac("same_value_other_representation")  # reported as pool_constructible by the geometry's own block
+        out.klass = "repr:not_constructible"
+        return out
     ref = call(mkgeom(gtype, coords), tb, fb)
     out.transitions = 1
     cls = {"kind": "representation", "rep": case["rep"], "type": gtype, "geom": "repr", "root": "repr", "depth": 0}
@@ -662,6 +678,10 @@ def run_strict(case):
     out = Out(case)
     gtype, coords = POOL_BY_ID[case["geom"]]
     tb, fb = case["buffer"]
+    if not constructible(gtype, coords):
+        out.vac("same_result_in_strict_environment")  # reported as pool_constructible by the geometry's own block
+        out.klass = "strict:not_constructible"
+        return out
     ref = call(mkgeom(gtype, coords), tb, fb)
     with warnings.catch_warnings():
         warnings.simplefilter("error")
